@@ -167,6 +167,11 @@ def gen(tier, rng):
     for _ in range(N // 2):
         n = rng.choice([2, 3])
         inner = _rand_res(rng, _lin(rng, n)) if rng.random() < 0.5 else _rand_reo(rng, _lin(rng, n))
+        if rng.random() < 0.2:
+            # an inner WCS with fewer pixel than world dimensions: two 1-D members sharing their only pixel axis
+            a_, b_ = _lin(rng, 1, tag=1, with_shape=True, with_bounds=True), _lin(rng, 1, tag=2, with_shape=True, with_bounds=True)
+            b_["shape"], b_["bounds"] = list(a_["shape"]), [list(x) for x in a_["bounds"]]
+            inner = {"k": "comp", "ws": [a_, b_], "mapping": [0, 0]}
         r = rng.random()
         if r < 0.4:
             add(_rand_res(rng, inner), "nested")
@@ -212,13 +217,28 @@ def build_impl(e, fam=None):
         num = (lambda x: int(_q(x)) if (e.get("ints") and _q(x).denominator == 1) else float(_q(x)))
         f = [num(x) for x in e["f"]]
         o = [num(x) for x in e["o"]]
-        return ResampledLowLevelWCS(inner, f[0] if e.get("fscalar") else f, o[0] if e.get("oscalar") else o)
+        if e.get("fscalar") or e.get("oscalar") or len(f) % 2:
+            return ResampledLowLevelWCS(inner, f[0] if e.get("fscalar") else f, o[0] if e.get("oscalar") else o)
+        # the parameters as numpy arrays which the caller goes on using (and changing) afterwards
+        fa, oa = np.array(f), np.array(o)
+        w_ = ResampledLowLevelWCS(inner, fa, oa)
+        fa *= 3
+        oa += 1
+        return w_
     if e["k"] == "reo":
-        # the orders are "iterables": lists, tuples or numpy arrays, by turns
-        kind = (sum(e["po"]) * 7 + sum(e["wo"]) * 3 + len(e["po"])) % 3
-        conv = [list, tuple, np.array][kind]
+        # the orders are "iterables": lists, tuples, numpy arrays or one-shot iterators, by turns
+        kind = (sum(e["po"]) * 7 + sum(e["wo"]) * 3 + len(e["po"])) % 4
+        conv = [list, tuple, np.array, iter][kind]
         return ReorderedLowLevelWCS(build_impl(e["w"], fam), conv(e["po"]), conv(e["wo"]))
-    return CompoundLowLevelWCS(*[build_impl(w) for w in e["ws"]], mapping=tuple(e["mapping"]))
+    # the mapping as a tuple, or as a list which the caller changes afterwards
+    members = [build_impl(w) for w in e["ws"]]
+    if len(e["mapping"]) % 2:
+        return CompoundLowLevelWCS(*members, mapping=tuple(e["mapping"]))
+    ml = list(e["mapping"])
+    w_ = CompoundLowLevelWCS(*members, mapping=ml)
+    ml.reverse()
+    ml.append(0)
+    return w_
 
 
 def _ref(e):
@@ -388,6 +408,33 @@ def run(case):
             elif any(abs(a - b) > Fr(1, 10 ** 9) * max(1, abs(b)) for a, b in zip(got, ep)):
                 why.append(f"world_to_pixel_values does not return the pixel position: {[float(x) for x in got]} vs {[float(x) for x in ep]}")
                 break
+    # world inputs given as arrays (three positions at once): consistent ones convert back; for a compound, one
+    # inconsistent element among consistent ones is enough for the whole request to be refused
+    if R is not None and not why:
+        ps = [[Fr(int(rng.randint(-8, 24)), 4) for _ in range(n)] for _ in range(3)]
+        ws = [list(R["p2w"](p)) for p in ps]
+        try:
+            got = _vec(W.world_to_pixel_values(*[np.array([float(w[j]) for w in ws]) for j in range(m)]), n)
+            for i3 in range(3):
+                if any(abs(float(np.asarray(got[a])[i3]) - float(ps[i3][a])) > 1e-9 * max(1.0, abs(float(ps[i3][a]))) for a in range(n)):
+                    why.append(f"world_to_pixel_values on arrays does not return the pixel positions (element {i3})")
+                    break
+        except Exception as ex:  # noqa
+            why.append(f"world_to_pixel_values raised {exc_name(ex)} on consistent array input")
+        if e["k"] == "comp" and not why:
+            ws2 = [list(w) for w in ws]
+            ws2[1][int(rng.randint(0, m))] += int(rng.choice([1, 3]))
+            try:
+                R["w2p"](ws2[1])
+                must_refuse = False
+            except Refused:
+                must_refuse = True
+            if must_refuse:
+                try:
+                    W.world_to_pixel_values(*[np.array([float(w[j]) for w in ws2]) for j in range(m)])
+                    why.append("array world inputs with one element implying different positions on a shared pixel axis were accepted")
+                except Exception:  # noqa
+                    pass
     wt = [int(t.split("w")[-1]) for t in W.world_axis_physical_types]
     try:
         pt = [int(t[1:]) for t in W.pixel_axis_names]
